@@ -19,7 +19,8 @@ CONSTANTS Carriers,        \* subset of {"vps", "p1", "p2", "xds"}
           WssWords,        \* WSS words used: "x", "y" (valid parity), "bad" (even parity)
           MaxRecv,
           UnknownOnce,     \* TRUE: a change to an unidentified station raises one event (repaired code)
-          XdsGuard         \* TRUE: XDS name path announces only a changed id (repaired code)
+          XdsGuard,        \* TRUE: XDS name path announces only a changed id (repaired code)
+          Calls            \* XDS call letters (Channel class, type 2) the stations send: subset of {"a", "b"}; {} = none
 
 VARIABLES last,      \* per carrier: value stored in the network record
           cycle,     \* shared repeat state: 0 nothing, 1 first reception, 2/3 announced
@@ -29,36 +30,44 @@ VARIABLES last,      \* per carrier: value stored in the network record
           prev,      \* ghost: per carrier the value received before this one
           wlast, wrep, aspect,    \* WSS: last word, repeat count, announced aspect
           wrun,                   \* ghost: length of the current run of identical WSS words
+          xcall,                  \* XDS: stored call letters ("0" = none): the station id is computed from them when present
+          xrun,                   \* ghost: consecutive receptions of the same XDS name with no other XDS change in between
           nrecv, lastAct
-vars == <<last, cycle, nuid, cache, evs, prev, wlast, wrep, aspect, wrun, nrecv, lastAct>>
+vars == <<last, cycle, nuid, cache, evs, prev, wlast, wrep, aspect, wrun, xcall, xrun, nrecv, lastAct>>
 
 Nuid(c, v) == IF v = "0" THEN "0"
               ELSE IF c = "xds" THEN (IF v = "u" THEN "Xu" ELSE IF v = "a" THEN "Xa" ELSE "Xb")
               ELSE IF v = "u" THEN "0" ELSE IF v = "a" THEN "A" ELSE "B"
 
+\* XDS station id: hash of the call letters if the station sends any, else of the network name
+XId(call, v) == IF call = "0" THEN Nuid("xds", v) ELSE IF call = "a" THEN "Ca" ELSE "Cb"
+IdOf(c, v, call) == IF c = "xds" THEN XId(call, v) ELSE Nuid(c, v)
+
 Init == /\ last = [c \in Carriers |-> "0"] /\ cycle = 0 /\ nuid = "0" /\ cache = TRUE /\ evs = <<>>
         /\ prev = [c \in Carriers |-> "0"]
         /\ wlast = "none" /\ wrep = 0 /\ aspect = "init" /\ wrun = 0
+        /\ xcall = "0" /\ xrun = 0
         /\ nrecv = 0 /\ lastAct = [a |-> "init"]
 
-Ev(t, c, v, id, rec) == [t |-> t, c |-> c, v |-> v, nuid |-> id, cni |-> rec]
+Ev(t, c, v, id, rec) == [t |-> t, c |-> c, v |-> v, nuid |-> id, cni |-> rec, call |-> IF c = "xds" THEN xcall ELSE "-"]
 
 -----------------------------------------------------------------------------
 \* Hamming/BCD protected carriers announce their time / programme label on every reception
-Always(c, v) == IF c = "p1" THEN <<[t |-> "LOCAL_TIME", c |-> c, v |-> v, nuid |-> "-", cni |-> "-"]>>
-                ELSE IF c = "p2" THEN <<[t |-> "PROG_ID", c |-> c, v |-> v, nuid |-> "-", cni |-> "-"]>>
+Always(c, v) == IF c = "p1" THEN <<[t |-> "LOCAL_TIME", c |-> c, v |-> v, nuid |-> "-", cni |-> "-", call |-> "-"]>>
+                ELSE IF c = "p2" THEN <<[t |-> "PROG_ID", c |-> c, v |-> v, nuid |-> "-", cni |-> "-", call |-> "-"]>>
                 ELSE <<>>
 
 (* one received VPS line / packet 8/30 format 1 or 2 / completed XDS network name *)
 Recv(c, v) ==
   /\ nrecv' = nrecv + 1 /\ lastAct' = [a |-> "Recv", c |-> c, v |-> v]
   /\ prev' = [prev EXCEPT ![c] = v]
-  /\ UNCHANGED <<wlast, wrep, aspect, wrun>>
+  /\ UNCHANGED <<wlast, wrep, aspect, wrun, xcall>>
+  /\ xrun' = IF c # "xds" THEN xrun ELSE IF prev[c] = v THEN xrun + 1 ELSE 1
   /\ IF v # last[c]
      THEN /\ last' = [last EXCEPT ![c] = v] /\ cycle' = 1 /\ evs' = Always(c, v)
           /\ UNCHANGED <<nuid, cache>>
      ELSE IF cycle # 1 THEN evs' = Always(c, v) /\ UNCHANGED <<last, cycle, nuid, cache>>
-     ELSE LET id == Nuid(c, v)
+     ELSE LET id == IdOf(c, v, xcall)
               guard == IF c = "xds" THEN (XdsGuard => id # nuid) ELSE id # nuid
               reset == guard /\ nuid # "0"
               \* vbi_chsw_reset(vbi, 0): clears the whole network record and raises its own event
@@ -74,16 +83,27 @@ Recv(c, v) ==
              /\ last' = rec
              /\ cycle' = IF c = "xds" THEN 3 ELSE 2
 
+(* a completed XDS "network call letters" packet.  As coded: changed letters make the stored network NAME forgotten, so
+   that the next two name packets count as "changed, then repeated" and the id is computed again - from the new letters. *)
+RecvCall(v) ==
+  /\ "xds" \in Carriers
+  /\ nrecv' = nrecv + 1 /\ lastAct' = [a |-> "Call", v |-> v]
+  /\ evs' = <<>> /\ UNCHANGED <<nuid, cache, prev, wlast, wrep, aspect, wrun>>
+  /\ IF v # xcall
+     THEN /\ xcall' = v /\ xrun' = 0
+          /\ IF cycle # 1 THEN last' = [last EXCEPT !["xds"] = "0"] /\ cycle' = 0 ELSE UNCHANGED <<last, cycle>>
+     ELSE UNCHANGED <<xcall, xrun, last, cycle>>
+
 (* the application caches pages of the station it is tuned to (sentinel for CacheKept) *)
 Refill == /\ ~cache /\ cache' = TRUE /\ evs' = <<>> /\ lastAct' = [a |-> "Refill"]
-          /\ UNCHANGED <<last, cycle, nuid, prev, wlast, wrep, aspect, wrun, nrecv>>
+          /\ UNCHANGED <<last, cycle, nuid, prev, wlast, wrep, aspect, wrun, xcall, xrun, nrecv>>
 
 (* one received WSS line *)
 AspectOf(w) == IF w = "x" THEN "ax" ELSE IF w = "y" THEN "ay" ELSE "abad"
 RecvWss(w) ==
   /\ nrecv' = nrecv + 1 /\ lastAct' = [a |-> "Wss", w |-> w]
   /\ wrun' = IF w = wlast THEN wrun + 1 ELSE 1
-  /\ UNCHANGED <<last, cycle, nuid, cache, prev>>
+  /\ UNCHANGED <<last, cycle, nuid, cache, prev, xcall, xrun>>
   /\ IF w # wlast
      THEN /\ wlast' = w /\ wrep' = 0 /\ evs' = <<>> /\ UNCHANGED aspect
      ELSE /\ wlast' = w
@@ -91,10 +111,11 @@ RecvWss(w) ==
           /\ IF wrep + 1 < 3 \/ w = "bad" \/ AspectOf(w) = aspect
              THEN evs' = <<>> /\ UNCHANGED aspect
              ELSE /\ aspect' = AspectOf(w)
-                  /\ evs' = <<[t |-> "ASPECT", c |-> "wss", v |-> w, nuid |-> "-", cni |-> AspectOf(w)]>>
+                  /\ evs' = <<[t |-> "ASPECT", c |-> "wss", v |-> w, nuid |-> "-", cni |-> AspectOf(w), call |-> "-"]>>
 
 Next == \/ \E c \in Carriers, v \in Vals : Recv(c, v)
         \/ \E w \in WssWords : RecvWss(w)
+        \/ \E v \in Calls : RecvCall(v)
         \/ Refill
 Spec == Init /\ [][Next]_vars
 Bounded == nrecv < MaxRecv
@@ -108,7 +129,7 @@ NetId(s) == SelectSeq(s, LAMBDA e : e.t = "NETWORK_ID")
 Faithful == \A i \in 1..Len(evs) :
               evs[i].t \in {"NETWORK", "NETWORK_ID"} =>
                  /\ evs[i].cni[evs[i].c] = evs[i].v
-                 /\ evs[i].nuid = Nuid(evs[i].c, evs[i].v)
+                 /\ evs[i].nuid = IdOf(evs[i].c, evs[i].v, xcall)
 \* (action properties, checked as invariants over the pair (state, its last reception))
 \* an identifier is announced only on a reception that repeats the previous one of its carrier
 OnlyAfterRepeat == [][\A i \in 1..Len(evs') : evs'[i].t \in {"NETWORK", "NETWORK_ID"} =>
@@ -125,5 +146,8 @@ CacheDropped == [][(nuid # "0" /\ nuid' # nuid) => ~cache']_vars
 WssOnlyAfterRepeats == [][\A i \in 1..Len(evs') : evs'[i].t = "ASPECT" =>
                             /\ lastAct'.a = "Wss" /\ lastAct'.w # "bad" /\ wrun' >= 4
                             /\ evs'[i].cni = AspectOf(lastAct'.w) /\ aspect # aspect']_vars
+\* XDS alone: when the same name keeps arriving (three receptions with no other XDS change in between) the identified
+\* station is the transmitted one - a change of the call letters under an unchanged name is announced too
+XdsSettles == (Carriers = {"xds"} /\ xrun >= 3) => nuid = XId(xcall, prev["xds"])
 TypeOK == cycle \in 0..3 /\ wrep \in 0..3
 =============================================================================
